@@ -256,10 +256,17 @@ func Run(ctx *common.Ctx) {
 		}
 	}
 	ctx.Meta.DistinctNontrivial = len(distinct)
-	ctx.Meta.Rule = "random sequences (3..30 ops, thorough 3..60) of History.Add (plain, multi-line, non-ASCII, adjacent duplicates, and in 35% of the sequences blank/leading-blank/trailing-blank/tab-containing/empty-line forms) / Clear(0,-1) / SetLimit(0..11) / restart, from an empty directory, an existing history or a stale history.tmp; memory, both files and a fresh Load observed after every op; for the first sequences of the run a worker process is killed (strace inject SIGKILL) on entering every state-changing openat/write/rename and the directory + fresh Load recorded; distinct = distinct op sequences of length >= 3"
+	ctx.Meta.Rule = "random sequences (3..30 ops, thorough 3..60) of History.Add (plain, multi-line, non-ASCII, adjacent duplicates, and in 35% of the sequences blank/leading-blank/trailing-blank/tab-containing/empty-line forms) / Clear(0,-1) / SetLimit(0..11) / restart, from an empty directory, an existing history or a stale history.tmp; memory, both files and a fresh Load observed after every op; for the first sequences of the run a worker process is killed (strace inject SIGKILL) on entering every state-changing openat/write/rename and the directory + fresh Load recorded; distinct = distinct op sequences of length >= 3; (c) histories of 3-12 KB in which the newline of one entry falls on byte 4094..4097, 8191..8193, 12288 or a random offset, single- and two-line forms, reloaded by a fresh History; (d) 25 (thorough 300) sequences of 2-5 REPL sessions, each a process of its own on the same configuration directory, setting 0-3 of five *print-...* variables (integers or nil): every session must start with the values last set in earlier sessions, compared with the settings model"
 	header := "From C20 Require Import Model Spec Corr.\nOpen Scope N_scope.\n"
 	footer := "Definition res := Eval vm_compute in check_all cases.\nPrint res.\nDefinition gcount := Eval vm_compute in guard_count cases.\nPrint gcount.\n"
 	ctx.WriteShards("cases", header, "case", footer, terms, descs, 16)
+	// (c) entries ending exactly at the file reader's buffer boundaries (implementation only)
+	boundaryRuns(ctx, base)
+	// (d) saved settings over several sessions, each a process of its own; compared with the settings model
+	sterms, sdescs := settingsRuns(ctx, self, base)
+	sheader := "From Coq Require Import List ZArith.\nImport ListNotations.\nFrom C20 Require Import Settings.\nOpen Scope list_scope.\n"
+	sfooter := "Definition res := Eval vm_compute in check_settings cases.\nPrint res.\n"
+	ctx.WriteShards("settings", sheader, "(list (list (N * option Z) * list (N * option Z)))", sfooter, sterms, sdescs, 1)
 	replayKnown(ctx, base)
 }
 
